@@ -676,6 +676,19 @@ def _index_hazards(fn: ast.FunctionDef, parents) -> Tuple[int, List[Tuple[str, s
                                                                           and k.value.value is True for k in node.keywords):
             out.append((norm(node)[:80], "zip(strict=True) raises ValueError when the two lists differ in length: the listener never "
                         "ties them together (declared types vs. parameters of the implementing function)"))
+        if isinstance(node, ast.Call) and call_name(node) in ("re.search", "re.match", "re.fullmatch", "re.sub", "re.compile", "re.findall",
+                                                              "re.split", "re.finditer") and node.args:
+            pat = node.args[0]
+            raw_parts = []
+            if isinstance(pat, ast.JoinedStr):
+                raw_parts = [v.value for v in pat.values if isinstance(v, ast.FormattedValue)]
+            elif not isinstance(pat, ast.Constant):
+                raw_parts = [x for x in ast.walk(pat) if isinstance(x, (ast.Name, ast.Attribute)) and not isinstance(x.ctx, ast.Store)][:1] \
+                    if not (isinstance(pat, ast.Call) and call_name(pat) == "re.escape") else []
+            unescaped = [p_ for p_ in raw_parts if not (isinstance(p_, ast.Call) and call_name(p_) == "re.escape")]
+            if unescaped:
+                out.append((norm(node)[:80], f"`{norm(unescaped[0])[:40]}` is spliced into a regular expression without re.escape: a name that "
+                            f"is a legal CMake argument but not a valid pattern (`*values`, `n{{2,1}}`) raises re.error while rendering"))
         if isinstance(node, ast.Subscript) and isinstance(node.ctx, ast.Load) and isinstance(node.slice, ast.Name) \
                 and isinstance(node.value, ast.Attribute) and isinstance(node.value.value, ast.Name) and node.value.value.id == "self":
             n += 1
@@ -721,9 +734,9 @@ def rule_render_total(rep: Report, repo: Repo, rule: str) -> None:
     ctree = ast.parse(open(os.path.join(VERIF_DIR, "controls", "render_index.py")).read())
     cpar = {ch: p for p in ast.walk(ctree) for ch in ast.iter_child_nodes(p)}
     hits = sum(len(_index_hazards(f, cpar)[1]) for f in ast.walk(ctree) if isinstance(f, ast.FunctionDef))
-    if hits != 3:
-        raise AnalysisError(f"positive control controls/render_index.py: {hits} hits, expected 3")
-    rep.ok(rule, "controls/render_index.py", "positive control: 3 hazards found, none in the bounded twin")
+    if hits != 4:
+        raise AnalysisError(f"positive control controls/render_index.py: {hits} hits, expected 4")
+    rep.ok(rule, "controls/render_index.py", "positive control: 4 hazards found, none in the bounded twin")
     rep.ok(rule, MOD, f"{n} indexed field access(es) examined")
 
 
